@@ -41,6 +41,12 @@ def corpus_files(rnd, tier):
                 out.append((os.path.basename(p), f.read()))
         except (OSError, UnicodeDecodeError):
             pass
+    # characters that str.splitlines() treats as line ends inside a block comment in front of an over-long line near the
+    # end of the file: a line number counted with them lies outside the file
+    long_ = "x" * 90
+    for i, ch in enumerate(["\f", "\v", "\x1c", "\u0085", "\u2028", "\f\v\u2028"]):
+        out.append(("exotic%d.c" % i, "/*\n** a%sb%sc\n** %s\n*/\nint\tg_a;\n" % (ch, ch, long_)))
+        out.append(("exotic%d.h" % i, "int\tf(void); /* %s%s */\n/* %s\n%s */\n" % (ch, ch, ch, long_)))
     base = list(out)
     n = 150 if tier == "quick" else 3000
     for _ in range(n):
@@ -204,6 +210,32 @@ def run(run, tier, seed, replay=None):
                 if kind == "multi" and k % 40 == 0:
                     run.sample({"file": name, "chars": len(src)})
             run.count("real reports (human vs json, order, catalogue, positions)", len(files), kinds.get("multi", 0))
+            # ---- several files in ONE run, argument order not sorted: both formats must list the same files in the same order
+            nmf = 0
+            for trial in range(6 if tier == "quick" else 60):
+                d = os.path.join(tmp, "mf%d" % trial)
+                os.makedirs(os.path.join(d, "sub"))
+                pick = rnd.sample([f for f in files if f[0].endswith(".c") and len(f[1]) < 4000], 3)
+                names = ["zeta.c", "alpha.c", os.path.join("sub", "mid.c")]
+                rnd.shuffle(names)
+                for (_, src), nm in zip(pick, names):
+                    with open(os.path.join(d, nm), "w") as fh:
+                        fh.write(src)
+                ch, oh, eh, xh = impl.run_main(["--no-colors"] + names, cwd=d)
+                cj, oj, ej, xj = impl.run_main(["-f", "json"] + names, cwd=d)
+                shutil.rmtree(d, ignore_errors=True)
+                if xh or xj or ": Error!\n\t" in oh:
+                    continue
+                try:
+                    hv = [(b_, v) for b_, v, _ in impl.parse_human(oh)]
+                    jv = [(os.path.basename(x["path"]), x["status"]) for x in json.loads(oj)["files"]]
+                except (ValueError, KeyError, TypeError):
+                    continue
+                nmf += 1
+                if hv != jv or [b_ for b_, _ in hv] != [os.path.basename(n_) for n_ in names]:
+                    found |= run.violation("formats-differ", {"argv": names, "human_files": hv, "json_files": jv,
+                                                              "sources": [p_[1] for p_ in pick]})
+            run.count("multi-file runs with unsorted argument order (file order and verdicts in both formats)", nmf, nmf)
             run.cov["report_kinds"] = kinds
             # ---- every real diagnostic list: first highlight position-minimal (hypothesis of C08_displayed_sorted)
             nfm = 0
